@@ -6,7 +6,7 @@ from props import wfm_common as W
 
 ID = "C07"
 PROPS_FILE = "Props/C07.v"
-SUBCHECKS = ["c17", "c18"]          # DateTimeArray / TimeDeltaArray and Vector: their step observations include the post-failure content
+SUBCHECKS = ["c17", "c18", "c15"]   # arrays, Vector and digital signal names: their step observations include the post-failure state
 RULE = ("fault generator over the waveform pool: histories biased to invalid calls (wrong dtype / ndim / signal count / timestamp "
         "count, incompatible or non-monotonic timing, out-of-range and non-integer sizes, unresizable borrowed buffers "
         "that would have to grow, wrong-typed timing / scale mode), applied at every reachable state class (empty / full / "
